@@ -427,6 +427,71 @@ def _thread_local_kind(p, module, value, scope=None):
     return None
 
 
+def _is_tl_subclass(p, c):
+    for k in p.mro(c):
+        for b in k.node.bases:
+            rb = p.resolve_expr(k.module, b)
+            if rb and rb[0] == "external" and rb[1] == "threading.local":
+                return True
+    return False
+
+
+def _mutable_new(v):
+    return isinstance(v, (ast.List, ast.Dict, ast.Set, ast.ListComp, ast.DictComp, ast.SetComp)) or (isinstance(v, ast.Call) and isinstance(v.func, ast.Name) and v.func.id in ("list", "dict", "set", "defaultdict", "deque", "OrderedDict"))
+
+
+def _copied(v, name):
+    """is expression v a fresh copy of `name` (copy.copy(x), copy.deepcopy(x), list(x), x.copy(), type(x)(x))?"""
+    if isinstance(v, ast.Call) and len(v.args) == 1 and isinstance(v.args[0], ast.Name) and v.args[0].id == name:
+        return norm(v.func) in ("copy.copy", "copy.deepcopy", "copy", "deepcopy", "list", "dict", "set", f"type({name})")
+    if isinstance(v, ast.Call) and isinstance(v.func, ast.Attribute) and v.func.attr == "copy" and isinstance(v.func.value, ast.Name) and v.func.value.id == name and not v.args:
+        return True
+    return False
+
+
+def tl_defaults(p, c, call):
+    """A project subclass `c` of threading.local constructed by `call`.  threading.local runs __init__ again - with the
+    SAME argument objects - in every thread that touches the object, so __init__ is where per-thread attributes are set
+    up.  -> (attributes every thread finds in place, [(attribute, why it is ONE object shared by all threads)])"""
+    init = p.lookup_method(c, "__init__")
+    if init is None:
+        return set(), []
+    est, shared = set(), []
+    a = init.node.args
+    params = [q.arg for q in a.posonlyargs + a.args][1:]
+    given = {}
+    for i, v in enumerate(call.args):
+        if i < len(params):
+            given[params[i]] = v
+    extra = {}
+    for k in call.keywords:
+        if k.arg is None:
+            continue
+        if k.arg in params or k.arg in [q.arg for q in a.kwonlyargs]:
+            given[k.arg] = k.value
+        else:
+            extra[k.arg] = k.value
+    sn = init.params[0]
+    for n in ast.walk(init.node):
+        if isinstance(n, ast.Assign):
+            for t in n.targets:
+                if isinstance(t, ast.Attribute) and isinstance(t.value, ast.Name) and t.value.id == sn:
+                    est.add(t.attr)
+                    if isinstance(n.value, ast.Name) and n.value.id in given and _mutable_new(given[n.value.id]):
+                        shared.append((t.attr, f"`{norm(n)}` stores the constructor argument `{norm(given[n.value.id])}` itself"))
+        # for name, value in <**kwargs>.items(): setattr(self, name, <value>)
+        if isinstance(n, ast.For) and a.kwarg is not None and isinstance(n.iter, ast.Call) and norm(n.iter.func) == f"{a.kwarg.arg}.items" and isinstance(n.target, ast.Tuple) and len(n.target.elts) == 2 and all(isinstance(e, ast.Name) for e in n.target.elts):
+            kn, vn = n.target.elts[0].id, n.target.elts[1].id
+            for c2 in ast.walk(n):
+                if isinstance(c2, ast.Call) and isinstance(c2.func, ast.Name) and c2.func.id == "setattr" and len(c2.args) == 3 and norm(c2.args[0]) == sn and norm(c2.args[1]) == kn:
+                    est |= set(extra)
+                    if not _copied(c2.args[2], vn):
+                        for k_, v_ in extra.items():
+                            if _mutable_new(v_) and any(isinstance(x, ast.Name) and x.id == vn for x in ast.walk(c2.args[2])):
+                                shared.append((k_, f"`{norm(c2)}` stores the default `{k_}={norm(v_)}` itself, without a copy"))
+    return est, shared
+
+
 def r3(p, rep, lockinfo):
     rep.rule("C10.R3", "long-lived objects mutated during a call are thread-local, lock-protected, snapshots or per-call", "T-LOCK (per-thread context)", floor=6)
     # (i) module-level variables mutated inside functions
@@ -498,6 +563,15 @@ def r3(p, rep, lockinfo):
                     is_tl = True
         if not is_tl:
             continue
+        # constructions: a mutable default handed to __init__ is one object for all threads unless it is copied there
+        for m2 in p.modules.values():
+            for call in ast.walk(m2.tree):
+                if isinstance(call, ast.Call) and resolve_callee(p, call, m2) == ("class", c):
+                    est, sh = tl_defaults(p, c, call)
+                    for attr, why in sh:
+                        rep.violation("C10.R3", f"{c.qualname}:shared-default:{m2.name}:{attr}", f"{m2.rel}:{call.lineno}", f"`{norm(call)[:60]}`: threading.local re-runs __init__ with the same argument objects in every thread, and {why}: `{attr}` is one object shared by all threads (per-thread stacks become one global stack; concurrent calls see each other's entries)")
+                    if est and not sh:
+                        rep.ok("C10.R3", f"{c.qualname}:defaults:{m2.name}:{call.lineno}", f"{m2.rel}:{call.lineno}", f"per-thread defaults {sorted(est)} are set up (copied) by __init__ in every thread")
         shared = [m_ for k in p.mro(c) for m_ in _class_level_mutables(k)]
         rep.add("C10.R3", f"{c.qualname}:thread-local-subclass", c.loc, not shared, "per-thread attributes only (set in __init__ or lazily)" if not shared else f"subclass {c.name} of threading.local has class-level mutable attribute(s) {shared}, which are shared by all threads: per-thread stacks become one global stack")
     # (ii) classes that mutate self outside __init__
@@ -823,15 +897,32 @@ def r7(p, rep):
 
     # thread-local storages: module-level names and self attributes initialised as threading.local()
     tls = set()
+    established = {}  # storage -> attributes its class sets up in __init__ (which runs in every thread)
+
+    def storage(module, v, scope=None):
+        if _is_threading(p, module, v, ("local",), scope):
+            return set()
+        if isinstance(v, ast.Call):
+            r = resolve_callee(p, v, module)
+            if r and r[0] == "class" and _is_tl_subclass(p, r[1]):
+                est, sh = tl_defaults(p, r[1], v)
+                return est
+        return None
+
     for m in p.modules.values():
         for k, b in m.bindings.items():
-            if b.kind == "var" and _is_threading(p, m, getattr(b.node, "value", None), ("local",)):
-                tls.add((m.name, k))
+            if b.kind == "var":
+                est = storage(m, getattr(b.node, "value", None))
+                if est is not None:
+                    tls.add((m.name, k))
+                    established[(m.name, k)] = est
     for c in p.classes.values():
         init = c.methods.get("__init__")
         for a, vals in p.self_attr_table(c).items():
-            if any(_is_threading(p, c.module, v, ("local",), init.node if init else None) for v in vals):
+            ests = [storage(c.module, v, init.node if init else None) for v in vals]
+            if any(e is not None for e in ests):
                 tls.add((c.module.name, f"self.{a}"))
+                established[(c.module.name, f"self.{a}")] = set.intersection(*[e for e in ests if e is not None]) if all(e is not None for e in ests) else set()
     n = 0
     for f in p.funcs.values():
         if not isinstance(f.node, (ast.FunctionDef, ast.AsyncFunctionDef)) or any(f.module.name == x for x in common.OFF_PATH_MODULES):
@@ -888,6 +979,9 @@ def r7(p, rep):
             if nd is None:
                 continue
             n += 1
+            if x.attr in established.get((f.module.name, norm(x.value)), ()):
+                rep.ok("C10.R7", f"{f.qualname}:read:{nm}", f"{f.module.rel}:{x.lineno}", f"`{nm}` is set up by the storage class's __init__, which threading.local runs in every thread")
+                continue
             # EAFP: `try: return TL.attr  except AttributeError: TL.attr = ...`
             if any(any(h.type is None or norm(h.type).split(".")[-1] in ("AttributeError", "Exception", "BaseException") or (isinstance(h.type, ast.Tuple) and any(norm(e).endswith("AttributeError") for e in h.type.elts)) for h in t.handlers) for t in common.enclosing_tries(x, f.node)):
                 rep.ok("C10.R7", f"{f.qualname}:read:{nm}", f"{f.module.rel}:{x.lineno}", f"`{nm}` is read inside try/except AttributeError (initialised in the handler)")
